@@ -1663,6 +1663,13 @@ func (p *Parser) evaluateSwitch(ctx context) (Statement, error) {
 		var compareExpr Expression
 		var compareExprToken lexer.Token
 
+		// Skip empty lines in front of a case.
+		if nextToken.Type() == lexer.NEWLINE {
+			p.eat()
+			nextToken = p.peek()
+			continue
+		}
+
 		switch nextToken.Type() {
 		case lexer.CASE:
 			p.eat() // Eat case-token.
